@@ -258,8 +258,11 @@ func (e *Enc) eval1(env *Env, x CExpr, cur, old *State) Val {
 			h := e.Get(cur, e.elemComp(u.Elem()))
 			return Val{T: fmt.Sprintf("(select (select %s (sl_ref %s)) (+ (sl_off %s) %s))", h, b.T, b.T, i.T), Typ: u.Elem()}
 		case *types.Map:
-			_, vv := e.mapComps(u)
-			return Val{T: app("select", app("select", e.Get(cur, vv), b.T), e.coerceTo(i, u.Key())), Typ: u.Elem()}
+			// Go semantics: the zero value for an absent key
+			dd, vv := e.mapComps(u)
+			k := e.coerceTo(i, u.Key())
+			has := app("select", app("select", e.Get(cur, dd), b.T), k)
+			return Val{T: ite(has, app("select", app("select", e.Get(cur, vv), b.T), k), e.sorts.Zero(u.Elem())), Typ: u.Elem()}
 		case *types.Array:
 			return Val{T: app("select", b.T, i.T), Typ: u.Elem()}
 		case *types.Basic:
